@@ -473,7 +473,8 @@ def run(res, replay=None):
                        '(0, +-whole hours, +330, +765, -720, +840), three weeks at 30 s / 59.x s / random distances <= 60 s, built through the constructor or through create_schedule; dense traces (0.5 s .. 60 s) that land exactly on and 1 ns past a window edge; '
                        'single checks incl. edges of the daily range, odd weekday values and readings near the epoch; generated <schedule> elements (end<=start, duration, missing attributes, weekday spellings); '
                        'decode_dow on every byte, every printable pair, ' + ('EVERY printable triple' if res.tier == 'thorough' else '4000 triples') + ', weekday spellings and random byte strings. distinct by line; non-trivial = everything but `consts`')
-    res.cov['exhaustive'] = (res.tier == 'thorough' and 'decode_dow: all strings of length <= 3 over printable ASCII') or False
+    res.cov['exhaustive'] = False          # the run as a whole is a sample; one part is enumerated completely in the thorough tier:
+    res.cov['exhaustive_part'] = 'decode_dow: all strings of length <= 3 over printable ASCII' if res.tier == 'thorough' else ''
     r = vlib.decide_stream(res, module='Fix8Model.Props.C24', theorems=THEOREMS, stream='sched', harness_name='sched',
                        lines=lines, oracle=oracle, compare=compare, nontrivial=lambda l: None if l == 'consts' else l,
                        harness_kw=dict(need_lib=True, extra_flags=['-ldl']), extra_obligation_problems=errs)
